@@ -266,6 +266,12 @@ def _tower(n, family="bool"):
         for _ in range(n):
             t = ("And", t, t)
         return t
+    if family == "times":
+        # t' = 2 * (t + y): products whose handlers ask the free-variables service about their operands
+        t = S("x", INT)
+        for _ in range(n):
+            t = ("Times", ("lit", 2, INT), ("Plus", t, S("y", INT)))
+        return ("LE", t, ("lit", 0, INT))
     t = S("x", INT)
     for _ in range(n):
         t = ("Plus", t, t)
@@ -286,20 +292,31 @@ def _tower_job(job):
     the number of nodes, not of paths."""
     cls, family = job
     meth, mode = _entries()[cls]
-    out = {"cls": cls, "family": family, "kind": "ok", "steps": [], "calls": []}
+    out = {"cls": cls, "family": family, "kind": "ok", "steps": [], "calls": [], "service_calls": [], "nodes": []}
     for depth in (5, 10):
         shape = Shape(_tower(depth, family))
 
         def call(w, it, f):
             w.wrapping = True
             try:
-                wk = w.new_walker(cls, w.env)
+                # the environment's free-variables service is the real class (handlers probed under their own tag)
+                fvo = w.new_walker("pysmt.oracles.FreeVarsOracle", w.env)
+                fvo.probe_tag = "FV"
+                w.env.attrs["_fvo"] = fvo
+                wk = w.new_walker(cls, w.env) if cls != "pysmt.oracles.FreeVarsOracle" else fvo
             finally:
                 w.wrapping = False
             wk.probe_tag = "A"
             s0 = it.steps
             it.call(it.getattr(wk, meth), _mk_args(w, f, mode))
-            return (it.steps - s0 - w.handler_steps, len(w.calls))
+            nodes, st = set(), [f]
+            while st:
+                x = st.pop()
+                if id(x) not in nodes:
+                    nodes.add(id(x))
+                    st.extend(w.nargs(x))
+            return (it.steps - s0 - w.handler_steps, sum(1 for c in w.calls if c[0] == "A"),
+                    sum(1 for c in w.calls if c[0] == "FV"), len(nodes))
 
         def post(w, f, val, facts):
             return proc.ProcResult(shape, "valid", val)
@@ -312,6 +329,8 @@ def _tower_job(job):
             return out
         out["steps"].append(ok[0].detail[0])
         out["calls"].append(ok[0].detail[1])
+        out["service_calls"].append(ok[0].detail[2])
+        out["nodes"].append(ok[0].detail[3])
     return out
 
 
@@ -347,7 +366,7 @@ def results(repo, tier="quick", classes=None, towers=True):
         js, others, known = jobs(repo, tier, classes)
         tw = []
         if towers:
-            tw = parallel_map(_tower_job, [(q, fam) for q in known for fam in ("bool", "arith")
-                                           if not (fam == "arith" and q in ARITH_SKIP)])
+            tw = parallel_map(_tower_job, [(q, fam) for q in known for fam in ("bool", "arith", "times")
+                                           if not (fam in ("arith", "times") and q in ARITH_SKIP)])
         _CACHE[key] = (parallel_map(_walk_job, js), others, tw)
     return _CACHE[key]
